@@ -48,6 +48,7 @@ class FunctionSpec:
     modifies: Dict[str, List[str]] = field(default_factory=dict)
     ensures_raises: Dict[str, Callable[[Any], list]] = field(default_factory=dict)
     pure_defs: Dict[str, Any] = field(default_factory=dict)
+    ghost_frozen: Set[str] = field(default_factory=set)   # ghosts assigned outside every loop: not havocked at loop heads
 
     @property
     def fid(self):
@@ -177,6 +178,13 @@ class Ctx:
 
     def has(self, name):
         return name in self._names or name in self._extra
+
+    def note(self, name, default=None):
+        """a witness recorded on THIS path by a library contract or a callee contract (falls back to the engine-wide last value)"""
+        if name in self._st.notes:
+            return self._st.notes[name]
+        v = getattr(self._e, name, default)
+        return v if v is not None else default
 
     def _view_list(self, vl):
         return ListView(self._e, self._st, vl)
